@@ -53,12 +53,13 @@ FLOATS = ["1.0", ".5", "1.", "1e3", "1.5e-3", "2E+4f", "0x1p3", "0x1.8p-1", "1.5
           "0xe+1", "1.5q"]
 CHARS = ["'a'", "'\\n'", "'\\0'", "'\\x41'", "'\\''", "L'a'", "u8'b'", "''", "'ab'", "'\\q'", "'\\101'"]
 STRINGS = ['""', '"abc"', '"a\\"b"', '"\\n%d"', 'L"w"', 'u8"x"', '"a\\\nb"', '"tab\there"', '"/* not */"',
-           '"// no"', '"\\q"', '"\\x"']
+           '"// no"', '"\\q"', '"\\x"', '"ff\x0c vt\x0b"', '"\u2028"', 'L"\\x12"', '"%:>"', "'\x0c'", 'u"\\777"']
 COMMENTS = ["// c", "//", "/* c */", "/**/", "/* a\nb */", "/* a\n\tb\n */", "/*\t\tx */", "// a \\\nb",
-            "/* a \\\n b */", "// x ??/\ny"]
+            "/* a \\\n b */", "// x ??/\ny", "/* page\x0cbreak */", "// vt\x0b nel\x85", "/* ls\u2028ps\u2029 */", "/* %:> <::> */",
+            "/*\x1c\n\x1e*/", "// %:%:<%"]
 WS = [" ", " ", "\t", "\n", "\n", "  ", "\t\t", " \t"]
 SPLICE = ["\\\n", "??/\n"]
-BAD = ["@", "$", "`", "\\", "\x00", "\r", "é", "\x7f", "€"]
+BAD = ["@", "$", "`", "\\", "\x00", "\r", "é", "\x7f", "€", "\x0c", "\x0b", "\x85", "\u2028", "\x1c", "\x1e", "\ufeff"]
 OPEN = ["'", "\"", "/*", "'a", "\"abc", "/* x", "'\\", "\"\\"]
 
 
